@@ -332,18 +332,8 @@ void vf::run_case(Src &s, Ctx &c)
         double dg = goalRegion->distanceGoal(last);
         double tol = 1e-9 * (1 + dg) + (P->ps.kind == SP_SE3 ? 1e-4 : 0);
         if (!(std::fabs(diff - dg) <= tol))
-        {
-            // The listed known findings of this kind (PRM family, AIT*, EIT* / EIRM*) report the distance from the path's last state to *one* of
-            // the goal states - one the planner has added so far - instead of to the nearest one. Only that is covered by their keys: a reported
-            // difference that is not the distance from the last state to any goal state is a different defect and gets a key of its own.
-            bool toSomeGoalState = false;
-            for (auto *g : P->goals)
-                if (std::fabs(diff - P->si->distance(last, g)) <= tol + 1e-9 * (1 + diff))
-                    toSomeGoalState = true;
-            c.failOrKnown(std::string(KP) + (toSomeGoalState ? "/approximate-difference-mismatch" : "/approximate-difference-unrelated-to-last-state") + pkey,
-                          vf::fmt("%s: reported goal difference %.9g but the last path state is %.9g from the goal%s", pi.name, diff, dg,
-                                  toSomeGoalState ? " (it is the distance to another goal state)" : " (and at that distance from no goal state)"));
-        }
+            c.failOrKnown(KP "/approximate-difference-mismatch" + pkey,
+                          vf::fmt("%s: reported goal difference %.9g but the last path state is %.9g from the goal", pi.name, diff, dg));
     }
     // --- clauses 2-4 on the reported path
     bool strict = pi.strictRecheck;
